@@ -2265,6 +2265,43 @@ func (s *session) opVSender(m *mtx) {
 	}
 }
 
+
+// genNameMoveSameBlock: a name is handed over and used in the SAME block. Names are resolved as of the state the block
+// started from, for the signature check and for the account charged alike: a transaction in the name behind the
+// hand-over still is the old owner's (his key, his nonce, his balance), never a mix of the two views.
+func (s *session) genNameMoveSameBlock() {
+	w := s.w
+	tip := s.bestBlk()
+	A := s.rng.Intn(nAcct)
+	B := (A + 1 + s.rng.Intn(nAcct-1)) % nAcct
+	C := (B + 1) % nAcct
+	s.nameSeq++
+	nm := []byte(fmt.Sprintf("verifsame%03d", s.nameSeq%1000))
+	gov := func(acct int, nonce uint64, payload, cmd, kind string) *mtx {
+		return s.mk(txSpec{body: &types.TxBody{Nonce: nonce, Account: w.addrs[acct], Recipient: []byte(types.AergoName), Amount: aergo1.Bytes(),
+			Payload: []byte(payload), Type: types.TxType_GOVERNANCE, ChainIdHash: s.cidNext()}, sig: sigSpec{mode: "k", key: acct}, hash: hashSpec{mode: "self"}, cmd: cmd, kind: kind})
+	}
+	inName := func(signer int, nonce uint64, kind string) *mtx {
+		return s.mk(txSpec{body: &types.TxBody{Nonce: nonce, Account: nm, Recipient: w.addrs[C], Amount: big.NewInt(int64(1 + s.rng.Intn(1000))).Bytes(),
+			Type: types.TxType_TRANSFER, ChainIdHash: s.cidNext()}, sig: sigSpec{mode: "k", key: signer}, hash: hashSpec{mode: "self"}, kind: kind})
+	}
+	na := s.nonceAt(tip, w.addrs[A])
+	nb := s.nonceAt(tip, w.addrs[B])
+	create := gov(A, na+1, fmt.Sprintf(`{"Name":"v1createName","Args":["%s"]}`, nm), "c:"+hx(nm), "name-create")
+	b1 := s.opBlock(tip, []*mtx{create}, false, "name-create")
+	if s.bestBlk() != b1 {
+		return
+	}
+	move := gov(A, na+2, fmt.Sprintf(`{"Name":"v1updateName","Args":["%s","%s"]}`, nm, types.EncodeAddress(w.addrs[B])), "u:"+hx(nm)+":"+hx(w.addrs[B]), "name-update")
+	use := s.rng.Chance(1, 2)
+	// signed by the old owner, carrying the NEW destination's next nonce
+	s.opBlock(b1, []*mtx{move, inName(A, nb+1, "named-sender-old-owner-new-account-nonce")}, use, "name-move+use-new-nonce")
+	// signed by the new owner already
+	s.opBlock(b1, []*mtx{move, inName(B, nb+1, "named-sender-new-owner-too-early")}, use, "name-move+use-by-new-owner")
+	// signed by the old owner with his own next nonce: still his name in this block
+	s.opBlock(b1, []*mtx{move, inName(A, na+3, "named-sender-owner")}, use, "name-move+use-old-nonce")
+}
+
 func (s *session) runSession(nops int) {
 	// hard-fork heights of this session: version 5 from block 1 on, or version 4 up to a small height and 5 from there
 	s.forkAt = 0
@@ -2321,8 +2358,10 @@ func (s *session) runSession(nops int) {
 			s.genBigBlock()
 		case k < 39:
 			s.genAfterFailing()
-		case k < 43:
+		case k < 42:
 			s.genNameMove()
+		case k < 43:
+			s.genNameMoveSameBlock()
 		case k < 46:
 			s.genContractName()
 		case k < 49:
